@@ -61,6 +61,12 @@ struct Built {
 /// loads `base.blocks[..upto]` into a fresh producer node and appends `extra` blocks
 /// with inter-block time `dt` (different `dt` / `salt` give different hashes)
 async fn extend(gp: u64, base: &Built, upto: usize, extra: usize, dt: u64, salt: u64) -> Option<Built> {
+    extend_opt(gp, base, upto, extra, dt, salt, 0).await
+}
+
+/// `pay_a_every` > 0: every such block's transfer also pays 1 to node A's key (key 2), so
+/// that a lite node A has transactions of its own in those blocks
+async fn extend_opt(gp: u64, base: &Built, upto: usize, extra: usize, dt: u64, salt: u64, pay_a_every: usize) -> Option<Built> {
     let mut node = Node::new(&params(gp, false), 1);
     let mut out = Built { blocks: base.blocks[..upto].to_vec(), spends: base.spends[..upto].to_vec() };
     for b in &out.blocks {
@@ -78,7 +84,11 @@ async fn extend(gp: u64, base: &Built, upto: usize, extra: usize, dt: u64, salt:
             let parent = &out.blocks[n - 1];
             let ts = parent.timestamp + dt;
             let spend = &out.spends[n - 1];
-            let tx = make_tx(&spend[0..1], &[(node.pk, spend[0].amount)], &node.sk, ts);
+            let tx = if pay_a_every > 0 && n % pay_a_every == 0 && spend[0].amount > 10 {
+                make_tx(&spend[0..1], &[(node.pk, spend[0].amount - 1), (keypair(2).0, 1)], &node.sk, ts)
+            } else {
+                make_tx(&spend[0..1], &[(node.pk, spend[0].amount)], &node.sk, ts)
+            };
             // a golden ticket in every second block keeps the difficulty flat and the
             // 2-of-6 density satisfied
             make_block(&node, parent.hash, ts, vec![tx], n % 2 == 1, salt * 1000 + n as u64)
@@ -516,7 +526,10 @@ async fn part1(args: &Args, rng: &mut Rng, summary: &mut Summary, distinct: &mut
     }
     // deliberate 16-bit window collisions (the hypothesis NoWindowCollision is needed):
     // mine holds another block at a sampled height whose window equals the peer's
-    for k in 0..(if thorough { 40u64 } else { 12 }) {
+    for k in 0..(if thorough { 80u64 } else { 24 }) {
+        // odd k: only the FIRST byte of the window coincides - not a collision of the 16-bit
+        // window, the estimate must stay at or below the fork point
+        let half = k % 2 == 1;
         let gp = 150u64;
         let tip_p = 20 + 10 * (k % 6) + rng.below(10);
         let tip_m = tip_p + 1 + rng.below(30);
@@ -549,7 +562,7 @@ async fn part1(args: &Args, rng: &mut Rng, summary: &mut Summary, distinct: &mut
                 if collide && id == cid {
                     let other = synth_hash(3, id);
                     h[2 * ci] = other[2 * ci];
-                    h[2 * ci + 1] = other[2 * ci + 1];
+                    h[2 * ci + 1] = if half { other[2 * ci + 1] ^ 0x5a } else { other[2 * ci + 1] };
                 }
                 let mut b = Block::new();
                 b.id = id;
@@ -565,10 +578,11 @@ async fn part1(args: &Args, rng: &mut Rng, summary: &mut Summary, distinct: &mut
         let peer = real_view(&peer_bc);
         let est = mine_bc.generate_last_shared_ancestor(peer.latest, peer.fid);
         let desc = format!(
-            "{{\"part\":1,\"kind\":\"planted-collision\",\"mine_tip\":{},\"peer_tip\":{},\"families_fork_after_id\":{},\"collision_at_id\":{},\"window\":{},\"estimate\":{}}}",
+            "{{\"part\":1,\"kind\":\"{}\",\"mine_tip\":{},\"peer_tip\":{},\"families_fork_after_id\":{},\"collision_at_id\":{},\"window\":{},\"estimate\":{}}}",
+            if half { "planted-first-byte-only" } else { "planted-collision" },
             tip_m, tip_p, fork, cid, ci, est
         );
-        record_pair(summary, &mut p1, distinct, "planted-collision", desc, &mine, &peer, est, true);
+        record_pair(summary, &mut p1, distinct, if half { "planted-first-byte-only" } else { "planted-collision" }, desc, &mine, &peer, est, true);
     }
     progress("part1 deep");
     // one deep pair reaching every weight of the table (ring of 400_000 slots)
@@ -576,7 +590,9 @@ async fn part1(args: &Args, rng: &mut Rng, summary: &mut Summary, distinct: &mut
         let gp = 200_000u64;
         let tip_m = 185_137u64;
         let tip_p = 185_019u64;
-        for fork in [0u64, 12_000, 185_000] {
+        // (second half: roles swapped, so that the peer-ahead branch walks all 16 weights too)
+        for (fork, swap) in [(0u64, false), (12_000, false), (185_000, false), (0, true), (12_000, true), (185_000, true)] {
+            let (tip_m, tip_p) = if swap { (tip_p, tip_m) } else { (tip_m, tip_p) };
             let mine_bc = synth_blockchain(gp, 1, fork, tip_m, 1, 2, false);
             let peer_bc = synth_blockchain(gp, 1, fork, tip_p, 1, 3, false);
             let latest_m = mine_bc.get_latest_block_id();
@@ -649,10 +665,28 @@ struct Sim {
 
 #[allow(clippy::too_many_arguments)]
 fn new_sim(key: u8, gp: u64, loading_completed: bool, batch: usize, n_verifiers: usize, fetch_url: &str, static_peer: bool) -> Sim {
+    new_sim_ext(key, gp, loading_completed, batch, n_verifiers, fetch_url, static_peer, false, (0, 0, 0))
+}
+
+#[allow(clippy::too_many_arguments)]
+fn new_sim_ext(
+    key: u8,
+    gp: u64,
+    loading_completed: bool,
+    batch: usize,
+    n_verifiers: usize,
+    fetch_url: &str,
+    static_peer: bool,
+    spv: bool,
+    wallet_version: (u8, u8, u16),
+) -> Sim {
     let (pk, sk) = keypair(key);
-    let wallet = Arc::new(RwLock::new(Wallet::new(sk, pk)));
+    let mut wal = Wallet::new(sk, pk);
+    wal.wallet_version = saito_core::core::process::version::Version::new(wallet_version.0, wallet_version.1, wallet_version.2);
+    let wallet = Arc::new(RwLock::new(wal));
     let mut c = params(gp, loading_completed).cfg();
     c.fetch_url = fetch_url.to_string();
+    c.spv = spv;
     if static_peer {
         c.peers.push(PeerConfig {
             host: "nodeb".to_string(),
@@ -767,6 +801,30 @@ impl Sim {
         }
         true
     }
+    /// blocks offered in the given order whatever the answer (a node that has reorganised)
+    async fn preload_history(&mut self, history: &[Block]) {
+        let mut bc = self.blockchain.write().await;
+        let mut mp = self.mempool.write().await;
+        for b in history {
+            let _ = bc.add_block(b.clone(), &mut self.consensus.storage, &mut mp, &self.cfg_plain).await;
+        }
+    }
+    /// a lite node that synced `chain` earlier: what process_ghost_chain leaves behind
+    async fn preload_ghost(&mut self, chain: &[Block]) {
+        let mut bc = self.blockchain.write().await;
+        for b in chain {
+            bc.add_ghost_block(b.id, b.previous_block_hash, b.timestamp, b.pre_hash, b.has_golden_ticket, b.hash);
+        }
+        if let Some(last) = chain.last() {
+            bc.blockring.on_chain_reorganization(last.id, last.hash, true);
+            bc.on_chain_reorganization(last.id, last.hash, true, &self.consensus.storage, &self.cfg_plain).await;
+            if let Some(fid) = bc.generate_fork_id(bc.last_block_id) {
+                if fid != [0; 32] {
+                    bc.set_fork_id(fid);
+                }
+            }
+        }
+    }
     fn drain_channels(&mut self) {
         for (k, rx) in self.rx_verif.iter_mut().enumerate() {
             while let Ok(v) = rx.try_recv() {
@@ -837,15 +895,32 @@ struct Scenario {
     duplicates: bool,
     policy: Policy,
     seed: u64,
+    /// blocks offered to B in this order before the peers connect (empty: b_chain in order);
+    /// B's longest chain afterwards is b_chain
+    b_history: Arc<Vec<Block>>,
+    /// A is a lite (SPV) node: ghost-chain sync
+    a_lite: bool,
+    /// second phase: once the first exchange has settled B's chain grows by these blocks (the
+    /// tail of b_chain) and A asks again
+    b_growth: usize,
+    /// wallet versions (A, B) announced in the handshake
+    versions: Option<((u8, u8, u16), (u8, u8, u16))>,
 }
 
 impl Scenario {
+    /// the wallet-version gate of process_incoming_block_hash: A does not fetch from an older peer
+    fn version_gate_closed(&self) -> bool {
+        match self.versions {
+            Some((a, b)) => a > b && b != (0, 0, 0),
+            None => false,
+        }
+    }
     fn sequential(&self) -> bool {
         self.batch == 1 && self.verifiers == 1
     }
     fn json(&self) -> String {
         format!(
-            "{{\"part\":2,\"scenario\":\"{}\",\"genesis_period\":{},\"initial_loading_completed\":{},\"a_len\":{},\"b_len\":{},\"common_prefix\":{},\"batch\":{},\"verification_threads\":{},\"a_serves_blocks\":{},\"fetch_failures\":\"{:?}\",\"duplicates\":{},\"policy\":\"{:?}\",\"seed\":{}}}",
+            "{{\"part\":2,\"scenario\":\"{}\",\"genesis_period\":{},\"initial_loading_completed\":{},\"a_len\":{},\"b_len\":{},\"common_prefix\":{},\"batch\":{},\"verification_threads\":{},\"a_serves_blocks\":{},\"fetch_failures\":\"{:?}\",\"duplicates\":{},\"policy\":\"{:?}\",\"seed\":{},\"b_offered_blocks\":{},\"a_lite\":{},\"b_grows_by\":{},\"wallet_versions\":\"{:?}\"}}",
             self.label,
             self.gp,
             self.loading_completed,
@@ -858,7 +933,11 @@ impl Scenario {
             self.fail,
             self.duplicates,
             self.policy,
-            self.seed
+            self.seed,
+            if self.b_history.is_empty() { self.b_chain.len() } else { self.b_history.len() },
+            self.a_lite,
+            self.b_growth,
+            self.versions
         )
     }
 }
@@ -870,6 +949,7 @@ struct PendingFetch {
     peer: u64,
     attempt: u32,
     duplicate: bool,
+    lite: bool,
 }
 
 #[derive(Default)]
@@ -890,6 +970,16 @@ struct RunOut {
     max_pending: usize,
     /// blocks in the order in which they reached A's consensus thread
     arrivals: Vec<SaitoHash>,
+    /// router events of A caused by FailedButRetry: (fetch previous block, fetch whole chain)
+    retry_events: (u32, u32),
+    /// A's longest-chain index at the end (lite runs)
+    a_index: BTreeMap<u64, SaitoHash>,
+    ghost_msgs_to_a: usize,
+    /// block ids named by the ghost chains delivered to A, and those flagged "has transactions for you"
+    ghost_ids: BTreeSet<u64>,
+    ghost_fetch_ids: BTreeSet<u64>,
+    /// hashes of B's chain that A stores at the end
+    a_holds: BTreeSet<SaitoHash>,
     fetch_failures: u32,
     dup_deliveries: u32,
     a_disconnects: usize,
@@ -988,10 +1078,10 @@ impl World {
                 }
             }
             sim.bcast_seen = d.broadcasts.len();
-            for (hash, peer, _url, id) in d.fetches[sim.fetch_seen..].iter() {
+            for (hash, peer, url, id) in d.fetches[sim.fetch_seen..].iter() {
                 let n = self.attempts.entry(*hash).or_insert(0);
                 *n += 1;
-                pool.push(PendingFetch { hash: *hash, id: *id, peer: *peer, attempt: *n, duplicate: false });
+                pool.push(PendingFetch { hash: *hash, id: *id, peer: *peer, attempt: *n, duplicate: false, lite: url.contains("/lite-block/") });
                 if who == 0 {
                     out.requested.insert(*hash);
                     self.requested_order.push(*hash);
@@ -1022,8 +1112,9 @@ enum Ev {
 async fn run_scenario(sc: &Scenario, forced: &[usize], budget_trace: bool) -> RunOut {
     let mut out = RunOut::default();
     let mut rng = Rng::new(sc.seed);
-    let a = new_sim(2, sc.gp, sc.loading_completed, sc.batch, sc.verifiers, if sc.a_serves { "http://nodea:12101/block/" } else { "" }, true);
-    let b = new_sim(3, sc.gp, sc.loading_completed, sc.batch, sc.verifiers, "http://nodeb:12101/block/", false);
+    let (va, vb) = sc.versions.unwrap_or(((0, 0, 0), (0, 0, 0)));
+    let a = new_sim_ext(2, sc.gp, sc.loading_completed, sc.batch, sc.verifiers, if sc.a_serves { "http://nodea:12101/block/" } else { "" }, true, sc.a_lite, va);
+    let b = new_sim_ext(3, sc.gp, sc.loading_completed, sc.batch, sc.verifiers, "http://nodeb:12101/block/", false, false, vb);
     let mut w = World {
         a,
         b,
@@ -1034,13 +1125,27 @@ async fn run_scenario(sc: &Scenario, forced: &[usize], budget_trace: bool) -> Ru
         attempts: BTreeMap::new(),
         requested_order: vec![],
     };
-    if !w.a.preload(&sc.a_chain).await || !w.b.preload(&sc.b_chain).await {
+    let a_ok = if sc.a_lite {
+        w.a.preload_ghost(&sc.a_chain).await;
+        true
+    } else {
+        w.a.preload(&sc.a_chain).await
+    };
+    let b_first = sc.b_chain.len() - sc.b_growth;
+    let mut grown = sc.b_growth == 0;
+    let b_ok = if sc.b_history.is_empty() {
+        w.b.preload(&sc.b_chain[..b_first]).await
+    } else {
+        w.b.preload_history(&sc.b_history).await;
+        w.b.tip().await.1 == sc.b_chain.last().map(|x| x.hash).unwrap_or([0; 32])
+    };
+    if !a_ok || !b_ok {
         out.panics.push("harness: preload failed".to_string());
         return out;
     }
     let b_serves: BTreeSet<SaitoHash> = sc.b_chain.iter().map(|x| x.hash).filter(|h| w.b.serve(h).is_some()).collect();
     let a_serves: BTreeSet<SaitoHash> = sc.a_chain.iter().map(|x| x.hash).filter(|h| w.a.serve(h).is_some()).collect();
-    out.b_tip = w.b.tip().await;
+    out.b_tip = (sc.b_chain.len() as u64, sc.b_chain.last().map(|x| x.hash).unwrap_or([0; 32]));
     out.a_start_tip = w.a.tip().await;
     out.a_lowest_acceptable = {
         let bc = w.a.blockchain.read().await;
@@ -1121,6 +1226,17 @@ async fn run_scenario(sc: &Scenario, forced: &[usize], budget_trace: bool) -> Ru
             if opts.is_empty() {
                 // quiescent: timer ticks (retry of failed fetches, pings) until nothing moves
                 if idle_ticks >= 5 {
+                    if !grown {
+                        // second phase: B's chain grows, A asks again (what a reconnection does)
+                        grown = true;
+                        idle_ticks = 0;
+                        if !w.b.preload(&sc.b_chain[b_first..]).await {
+                            out.panics.push("harness: B could not extend its chain".to_string());
+                            break;
+                        }
+                        w.a.q_router.push_back(RoutingEvent::BlockchainRequest(B_ON_A));
+                        continue;
+                    }
                     out.quiescent = true;
                     break;
                 }
@@ -1165,8 +1281,18 @@ async fn run_scenario(sc: &Scenario, forced: &[usize], budget_trace: bool) -> Ru
         let res: Result<(), String> = match ev {
             Ev::NetToA => {
                 let buf = w.net_ba.pop_front().unwrap();
-                if buf.first() == Some(&6) || matches!(Message::deserialize(buf.clone()), Ok(Message::BlockHeaderHash(_, _))) {
-                    out.headers_to_a += 1;
+                match Message::deserialize(buf.clone()) {
+                    Ok(Message::BlockHeaderHash(_, _)) => out.headers_to_a += 1,
+                    Ok(Message::GhostChain(g)) => {
+                        out.ghost_msgs_to_a += 1;
+                        for (i, id) in g.block_ids.iter().enumerate() {
+                            out.ghost_ids.insert(*id);
+                            if g.txs.get(i) == Some(&true) {
+                                out.ghost_fetch_ids.insert(*id);
+                            }
+                        }
+                    }
+                    _ => {}
                 }
                 futures_catch(AssertUnwindSafe(async {
                     let _ = w.a.routing.process_network_event(NetworkEvent::IncomingNetworkMessage { peer_index: B_ON_A, buffer: buf }).await;
@@ -1219,6 +1345,11 @@ async fn run_scenario(sc: &Scenario, forced: &[usize], budget_trace: bool) -> Ru
             }
             Ev::RouterA => {
                 let e = w.a.q_router.pop_front().unwrap();
+                match &e {
+                    RoutingEvent::BlockFetchRequest(..) => out.retry_events.0 += 1,
+                    RoutingEvent::BlockchainRequest(..) => out.retry_events.1 += 1,
+                    _ => {}
+                }
                 futures_catch(AssertUnwindSafe(async {
                     let _ = w.a.routing.process_event(e).await;
                 }))
@@ -1234,7 +1365,18 @@ async fn run_scenario(sc: &Scenario, forced: &[usize], budget_trace: bool) -> Ru
             Ev::FetchA(k) | Ev::FetchB(k) => {
                 let to_a = matches!(ev, Ev::FetchA(_));
                 let pf = if to_a { w.fetch_a.remove(k) } else { w.fetch_b.remove(k) };
-                let data = if to_a { w.b.serve(&pf.hash) } else { w.a.serve(&pf.hash) };
+                let mut data = if to_a { w.b.serve(&pf.hash) } else { w.a.serve(&pf.hash) };
+                if pf.lite {
+                    // saito-rust's /lite-block/<hash>/<key> route: the stored block reduced to the
+                    // transactions touching the asker's key list (its own key here)
+                    data = data.and_then(|buf| {
+                        let mut blk = Block::deserialize_from_net(&buf).ok()?;
+                        blk.generate().ok()?;
+                        let (apk, _) = keypair(2);
+                        let lite = blk.generate_lite_block(vec![apk]);
+                        Some(lite.serialize_for_net(saito_core::core::consensus::block::BlockType::Full))
+                    });
+                }
                 let mut fail = data.is_none();
                 if to_a && !pf.duplicate && !fail {
                     let c = fail_counts.entry(pf.hash).or_insert(0);
@@ -1298,6 +1440,14 @@ async fn run_scenario(sc: &Scenario, forced: &[usize], budget_trace: bool) -> Ru
             (0, [0; 32])
         }
     };
+    if sc.a_lite {
+        let bc = w.a.blockchain.read().await;
+        let hi = out.a_tip.0.max(out.b_tip.0);
+        if let Ok(m) = std::panic::catch_unwind(AssertUnwindSafe(|| index_of(&bc, 0, hi + 1))) {
+            out.a_index = m;
+        }
+        out.a_holds = sc.b_chain.iter().map(|x| x.hash).filter(|h| bc.blocks.contains_key(h)).collect();
+    }
     let b_end = match futures_catch(AssertUnwindSafe(w.b.tip())).await {
         Ok(t) => t,
         Err(m) => {
@@ -1344,56 +1494,200 @@ struct Judged {
     converged: bool,
 }
 
+#[derive(Clone, Copy, PartialEq, Debug)]
+enum Kind {
+    Panic,
+    SupplyPanic,
+    NoQuiescence,
+    NotConverged,
+    TipDown,
+    NeverRequested,
+    BTipMoved,
+    Gate,
+    LiteIndex,
+}
+
 async fn judge_run(sc: &Scenario, out: &RunOut) -> Judged {
     // what B serves is decided on a fresh B
     let mut b = new_sim(3, sc.gp, sc.loading_completed, sc.batch, 1, "http://nodeb:12101/block/", false);
-    b.preload(&sc.b_chain).await;
+    if sc.b_history.is_empty() {
+        b.preload(&sc.b_chain).await;
+    } else {
+        b.preload_history(&sc.b_history).await;
+    }
     let served: BTreeSet<SaitoHash> = sc.b_chain.iter().map(|x| x.hash).filter(|h| b.serve(h).is_some()).collect();
     let streamable: BTreeSet<SaitoHash> = {
         let bc = b.blockchain.read().await;
         let latest = bc.get_latest_block_id();
         (0..=latest).filter_map(|i| bc.blockring.get_longest_chain_block_hash_at_block_id(i)).collect()
     };
-    let (adopt, _how) = adoptable(sc, &served).await;
     let want = sc.b_chain.last().map(|x| x.hash).unwrap_or([0; 32]);
     let converged = out.a_tip.1 == want;
-    let mut raw: Vec<String> = vec![];
+    let mut raw: Vec<(Kind, String)> = vec![];
     for p in &out.panics {
-        raw.push(format!("handler panicked / broke: {}", p));
+        let k = if p.contains("B-TIP-MOVED") {
+            Kind::BTipMoved
+        } else if p.contains("invalid total supply") {
+            Kind::SupplyPanic
+        } else {
+            Kind::Panic
+        };
+        raw.push((k, format!("handler panicked / broke: {}", p)));
     }
     if !out.quiescent && out.panics.is_empty() {
-        raw.push(format!("no quiescence within {} steps", out.steps));
+        raw.push((Kind::NoQuiescence, format!("no quiescence within {} steps", out.steps)));
     }
-    if adopt && !converged {
-        raw.push(format!(
-            "B's chain (tip id {}) is adopted by A when delivered in order, but the protocol run ends with A on tip id {} (hash differs)",
-            out.b_tip.0, out.a_tip.0
-        ));
+    if sc.a_lite {
+        // lite node: the ghost-chain exchange must leave A's by-height index equal to B's
+        // longest chain above the common prefix, and A on B's tip
+        let mut differs = vec![];
+        for blk in sc.b_chain.iter().skip(sc.common) {
+            if streamable.contains(&blk.hash) && out.a_index.get(&blk.id) != Some(&blk.hash) {
+                differs.push(blk.id);
+            }
+        }
+        if !converged {
+            raw.push((
+                Kind::NotConverged,
+                format!("lite node A ends on tip id {} but B's tip is id {} (hash differs)", out.a_tip.0, out.b_tip.0),
+            ));
+        }
+        if !differs.is_empty() {
+            raw.push((
+                Kind::LiteIndex,
+                format!(
+                    "lite node A's longest-chain index differs from B's chain at ids {:?} (common prefix {}): blocks above the fork point were skipped by the ghost chain",
+                    differs, sc.common
+                ),
+            ));
+        }
+        let mut j = Judged { failures: vec![], known: vec![], adoptable: true, converged };
+        // every height at which A's index is not B's block is traced to what A was sent and holds
+        let a_old_tip = sc.a_chain.len() as u64;
+        let forked = sc.a_chain.len() > sc.common;
+        let ring = 2 * sc.gp;
+        let first_streamed = out.ghost_ids.iter().next().cloned().unwrap_or(0);
+        let start_parent_unindexed = first_streamed >= 2
+            && sc.b_chain.get(first_streamed as usize - 2).map(|p| !streamable.contains(&p.hash)).unwrap_or(false);
+        let classify = |id: u64| -> Option<&'static str> {
+            let bh = sc.b_chain[id as usize - 1].hash;
+            let streamed = out.ghost_ids.contains(&id);
+            let holds = out.a_holds.contains(&bh);
+            let own_block_there = sc.a_chain.get(id as usize - 1).map(|x| x.hash != bh).unwrap_or(false);
+            let older_in_slot = id > ring && (id - ring <= a_old_tip || out.ghost_ids.contains(&(id - ring)));
+            if !streamed && forked && id <= a_old_tip {
+                Some("ghost-chain-starts-at-asker-tip")
+            } else if streamed && holds && (own_block_there || older_in_slot) {
+                Some("ghost-block-behind-older-slot-entry")
+            } else if streamed && holds && out.ghost_fetch_ids.iter().any(|f| *f < id) {
+                Some("ghosts-after-fetched-block-not-adopted")
+            } else if streamed && !holds && start_parent_unindexed {
+                Some("ghost-start-hash-of-unindexed-block")
+            } else {
+                None
+            }
+        };
+        let mut by_class: BTreeMap<&'static str, Vec<u64>> = BTreeMap::new();
+        let mut unexplained: Vec<u64> = vec![];
+        for id in &differs {
+            match classify(*id) {
+                Some(c) => by_class.entry(c).or_default().push(*id),
+                None => unexplained.push(*id),
+            }
+        }
+        for (k, f) in raw {
+            match k {
+                Kind::LiteIndex => {
+                    for (c, ids) in &by_class {
+                        j.known.push((c.to_string(), format!("lite node A's index is not B's block at ids {:?} (common prefix {}, A's tip before {})", ids, sc.common, a_old_tip)));
+                    }
+                    if !unexplained.is_empty() {
+                        j.failures.push(format!(
+                            "lite node A's longest-chain index differs from B's chain at ids {:?} (common prefix {}) and none of the listed ghost-chain findings explains it",
+                            unexplained, sc.common
+                        ));
+                    }
+                }
+                Kind::NotConverged => {
+                    // the tip is one of the heights judged above, or: every block above A's tip is
+                    // held as a ghost block that followed a block A had to fetch
+                    let above_held = sc.b_chain[out.a_tip.0 as usize..].iter().all(|x| out.a_holds.contains(&x.hash));
+                    let after_fetch = out.ghost_fetch_ids.iter().any(|f| *f <= out.a_tip.0) && !out.ghost_fetch_ids.contains(&out.b_tip.0);
+                    if differs.contains(&out.b_tip.0) && !unexplained.contains(&out.b_tip.0) {
+                        // reported with the index finding
+                    } else if out.a_tip.0 < out.b_tip.0 && above_held && after_fetch {
+                        j.known.push(("ghosts-after-fetched-block-not-adopted".to_string(), f));
+                    } else {
+                        j.failures.push(f);
+                    }
+                }
+                _ => j.failures.push(f),
+            }
+        }
+        return j;
     }
-    if out.a_tip.0 < out.a_start_tip.0 && out.panics.is_empty() {
-        raw.push(format!("A's tip height went down during the exchange: from id {} to id {}", out.a_start_tip.0, out.a_tip.0));
-    }
-    // requested vs needed: B's streamable, served blocks above the common prefix
-    let mut missing = vec![];
-    for blk in sc.b_chain.iter().skip(sc.common) {
-        if blk.id > out.a_lowest_acceptable && streamable.contains(&blk.hash) && served.contains(&blk.hash) && !out.requested.contains(&blk.hash) {
-            missing.push(blk.id);
+    let (adopt, _how) = adoptable(sc, &served).await;
+    if sc.version_gate_closed() {
+        // B announces an older wallet version: A must not fetch from it
+        if !out.requested.is_empty() || out.a_tip != out.a_start_tip {
+            raw.push((
+                Kind::Gate,
+                format!(
+                    "A (wallet version {:?}) fetched {} blocks from B whose wallet version {:?} is older",
+                    sc.versions.unwrap().0,
+                    out.requested.len(),
+                    sc.versions.unwrap().1
+                ),
+            ));
+        }
+    } else {
+        if adopt && !converged {
+            raw.push((
+                Kind::NotConverged,
+                format!(
+                    "B's chain (tip id {}) is adopted by A when delivered in order, but the protocol run ends with A on tip id {} (hash differs)",
+                    out.b_tip.0, out.a_tip.0
+                ),
+            ));
+        }
+        // requested vs needed: B's streamable, served blocks above the common prefix
+        let mut missing = vec![];
+        for blk in sc.b_chain.iter().skip(sc.common) {
+            if blk.id > out.a_lowest_acceptable && streamable.contains(&blk.hash) && served.contains(&blk.hash) && !out.requested.contains(&blk.hash) {
+                missing.push(blk.id);
+            }
+        }
+        if !missing.is_empty() {
+            raw.push((Kind::NeverRequested, format!("needed blocks never requested by A: ids {:?}", missing)));
+        }
+        // and nothing off B's longest chain is requested (B may hold abandoned forks)
+        let b_lc: BTreeSet<SaitoHash> = sc.b_chain.iter().map(|x| x.hash).collect();
+        let stale: Vec<String> = out.requested.iter().filter(|h| !b_lc.contains(*h)).map(|h| hex::encode(&h[..4])).collect();
+        if !stale.is_empty() && !sc.a_serves {
+            raw.push((
+                Kind::NeverRequested,
+                format!("A requested {} blocks that are not on B's longest chain (announced by B): {:?}", stale.len(), stale),
+            ));
         }
     }
-    if !missing.is_empty() {
-        raw.push(format!("needed blocks never requested by A: ids {:?}", missing));
+    if out.a_tip.0 < out.a_start_tip.0 && out.panics.is_empty() {
+        raw.push((Kind::TipDown, format!("A's tip height went down during the exchange: from id {} to id {}", out.a_start_tip.0, out.a_tip.0)));
     }
     let mut j = Judged { failures: vec![], known: vec![], adoptable: adopt, converged };
     let reordered: Vec<u64> = out.child_before_parent.iter().filter(|e| e.reordered).map(|e| e.id).collect();
     let reordered_orphan: Vec<u64> = out.child_before_parent.iter().filter(|e| e.reordered && e.orphan_path).map(|e| e.id).collect();
     let any_orphan = out.child_before_parent.iter().any(|e| e.orphan_path);
-    // (1) the protocol delivered a child before its parent and add_block took the parentless path
+    // (1) the protocol delivered a child before its parent and add_block took the parentless path.
+    // Attributed to the listed finding are only the failure kinds that path produces: the node
+    // not on the peer's tip, its tip height going down, the total-supply panic.  A block that
+    // was never requested, a run that does not settle, any other panic stay failures.
     let excused_reorder = !sc.sequential() && !reordered_orphan.is_empty();
     // (2) the peer's chain has another genesis block: its blocks reach add_block with unknown / all-zero parents
     let foreign_genesis = sc.common == 0 && !sc.a_chain.is_empty() && any_orphan;
     let b_excused = out.b_child_before_parent.iter().any(|e| e.orphan_path);
-    for f in raw {
-        if f.contains("B-TIP-MOVED") && b_excused {
+    let orphan_kind = |k: Kind| matches!(k, Kind::NotConverged | Kind::TipDown | Kind::SupplyPanic);
+    for (k, f) in raw {
+        if k == Kind::BTipMoved && b_excused {
             j.known.push((
                 "child-before-parent".to_string(),
                 format!(
@@ -1402,12 +1696,12 @@ async fn judge_run(sc: &Scenario, out: &RunOut) -> Judged {
                     f
                 ),
             ));
-        } else if excused_reorder {
+        } else if excused_reorder && orphan_kind(k) {
             j.known.push((
                 "child-before-parent".to_string(),
                 format!("(A.add_block was offered ids {:?} before their parents) {}", reordered_orphan, f),
             ));
-        } else if foreign_genesis {
+        } else if foreign_genesis && orphan_kind(k) {
             j.known.push(("foreign-genesis".to_string(), format!("(A and B share no block) {}", f)));
         } else {
             j.failures.push(f);
@@ -1499,7 +1793,8 @@ fn p2_case(sc: &Scenario, out: &RunOut) -> Option<String> {
     // the Coq chain model is tied to the code (harness c05) on histories in which no block
     // is offered before its parent; runs that enter add_block's parentless path are judged
     // by the direct oracle only
-    if !out.panics.is_empty()
+    if sc.a_lite
+        || !out.panics.is_empty()
         || 2 * sc.gp < (sc.a_chain.len().max(sc.b_chain.len()) as u64)
         || out.child_before_parent.iter().any(|e| e.orphan_path)
     {
@@ -1590,6 +1885,10 @@ async fn async_main(args: Args) {
                 duplicates: false,
                 policy: Policy::Random,
                 seed: rng.next(),
+                b_history: Arc::new(vec![]),
+                a_lite: false,
+                b_growth: 0,
+                versions: None,
             }
         };
         let mut base: Vec<Scenario> = vec![];
@@ -1684,6 +1983,179 @@ async fn async_main(args: Args) {
                 scenarios.push(t);
             }
         }
+
+        // ---- B has reorganised: it first followed a fork it later abandoned, so the stale
+        // blocks sit in its block index in front of the blocks of its longest chain
+        for (j, (d, sl)) in [(3usize, 2usize), (8, 3), (12, 3), (19, 4)].iter().enumerate() {
+            let bl = (*d + *sl + 6).min(*n);
+            if *d + *sl + 1 > bl {
+                continue;
+            }
+            let mut found = None;
+            for dt in [1000u64, 5000, 200] {
+                if let Some(st) = extend(*gp, &main, *d, *sl, dt, 61 + j as u64 + 100 * gi as u64).await {
+                    let mut hist: Vec<Block> = mainv[..*d].to_vec();
+                    hist.extend(st.blocks[*d..].iter().cloned());
+                    hist.extend(mainv[*d..bl].iter().cloned());
+                    let mut probe = Node::new(&params(*gp, false), 3);
+                    for b in &hist {
+                        probe.add_block(b.clone()).await;
+                    }
+                    let stale_first = (*d..*d + *sl).all(|i| {
+                        probe.blockchain.blockring.get_block_hash_by_block_id(i as u64 + 1) == Some(st.blocks[i].hash)
+                    });
+                    if probe.blockchain.get_latest_block_hash() == mainv[bl - 1].hash && stale_first {
+                        found = Some((st, hist));
+                        break;
+                    }
+                }
+            }
+            let (st, hist) = match found {
+                Some(x) => x,
+                None => continue,
+            };
+            let hist = Arc::new(hist);
+            let mut shapes: Vec<(String, Arc<Vec<Block>>, usize)> = vec![
+                (format!("A empty, B {} after abandoning a fork at {} +{}", bl, d, sl), Arc::new(vec![]), 0),
+                (format!("A prefix {}, B {} after abandoning a fork at {} +{}", d, bl, d, sl), Arc::new(mainv[..*d].to_vec()), *d),
+                (format!("A on the fork B abandoned ({} +{}), B {}", d, sl, bl), Arc::new(st.blocks.clone()), *d),
+            ];
+            if *d > 2 {
+                shapes.push((format!("A prefix {}, B {} after abandoning a fork at {} +{}", d - 2, bl, d, sl), Arc::new(mainv[..*d - 2].to_vec()), *d - 2));
+            }
+            for (label, a, common) in shapes {
+                for v in 0..3 {
+                    let mut t = mk(label.clone(), a.clone(), Arc::new(mainv[..bl].to_vec()), common, &mut rng);
+                    t.b_history = hist.clone();
+                    match v {
+                        0 => {
+                            t.batch = 1;
+                            t.verifiers = 1;
+                            t.policy = Policy::Fifo;
+                        }
+                        1 => t.policy = Policy::Fifo,
+                        _ => {
+                            t.loading_completed = true;
+                            t.batch = 4;
+                            t.policy = Policy::ReverseFetches;
+                        }
+                    }
+                    scenarios.push(t);
+                }
+            }
+        }
+
+        // ---- wallet-version gate: A does not fetch from a peer that announces an older wallet version
+        for (al, bl) in [(0usize, 5usize), (3, 12), (10, (*n).min(21))] {
+            for (va, vb) in [((1u8, 2u8, 5u16), (1u8, 2u8, 4u16)), ((1, 2, 5), (0, 0, 0)), ((1, 2, 5), (1, 2, 5)), ((1, 2, 4), (1, 2, 5)), ((2, 0, 0), (1, 9, 9))] {
+                for seq in [true, false] {
+                    let mut t = mk(
+                        format!("A prefix {}, B {}, wallet versions {:?}/{:?}", al, bl, va, vb),
+                        Arc::new(mainv[..al].to_vec()),
+                        Arc::new(mainv[..bl].to_vec()),
+                        al,
+                        &mut rng,
+                    );
+                    t.versions = Some((va, vb));
+                    t.policy = Policy::Fifo;
+                    if seq {
+                        t.batch = 1;
+                        t.verifiers = 1;
+                    }
+                    scenarios.push(t);
+                }
+            }
+        }
+
+        // ---- many fetches in flight completing in reverse with initial_loading_completed: a block far
+        // above the tip arrives first (fetch-whole-chain answer of add_block when the distance reaches
+        // min(1000, genesis_period)), then fetch-previous-block requests
+        if *gp <= 30 {
+            for al in [(*n).saturating_sub(*gp as usize + 2), (*n).saturating_sub(*gp as usize), (*n).saturating_sub(*gp as usize - 2)] {
+                if al == 0 || al >= *n {
+                    continue;
+                }
+                for pol in [Policy::ReverseFetches, Policy::Random] {
+                    let mut t = mk(format!("A prefix {}, B {}, 25 fetches in flight", al, n), Arc::new(mainv[..al].to_vec()), Arc::new(mainv[..*n].to_vec()), al, &mut rng);
+                    t.loading_completed = true;
+                    t.batch = 25;
+                    t.policy = pol;
+                    scenarios.push(t);
+                }
+            }
+        }
+
+        // ---- lite (SPV) node A: ghost-chain sync
+        {
+            let main_pay = extend_opt(*gp, &empty, 0, (*n).min(28), 300, 0, 4).await.expect("paying chain");
+            let payv = Arc::new(main_pay.blocks.clone());
+            let mut lite: Vec<(String, Arc<Vec<Block>>, Arc<Vec<Block>>, usize)> = vec![];
+            for bl in [3usize, 9, 12, 25, *n] {
+                if bl <= *n {
+                    lite.push((format!("lite A empty, B {}", bl), Arc::new(vec![]), Arc::new(mainv[..bl].to_vec()), 0));
+                }
+            }
+            for (al, bl) in [(2usize, 6usize), (5, 12), (10, 21), (12, 25), (20, (*n).min(31))] {
+                if bl <= *n && al < bl {
+                    lite.push((format!("lite A ghost prefix {}, B {}", al, bl), Arc::new(mainv[..al].to_vec()), Arc::new(mainv[..bl].to_vec()), al));
+                }
+            }
+            for (d, sa, bl) in [(2usize, 3usize, 9usize), (4, 3, 15), (10, 2, 20), (12, 9, 27), (20, 3, (*n).min(30))] {
+                if bl > *n || d + sa >= bl {
+                    continue;
+                }
+                if let Some(f) = extend(*gp, &main, d, sa, 200, 91 + d as u64).await {
+                    lite.push((format!("lite A ghost fork at {} +{}, B {}", d, sa, bl), Arc::new(f.blocks.clone()), Arc::new(mainv[..bl].to_vec()), d));
+                }
+            }
+            for bl in [6usize, 13, payv.len()] {
+                if bl <= payv.len() {
+                    lite.push((format!("lite A empty, B {} with payments to A", bl), Arc::new(vec![]), Arc::new(payv[..bl].to_vec()), 0));
+                }
+            }
+            if payv.len() > 14 {
+                lite.push((format!("lite A ghost prefix 6, B {} with payments to A", payv.len()), Arc::new(payv[..6].to_vec()), payv.clone(), 6));
+            }
+            for (label, a, b, common) in lite {
+                for v in 0..2 {
+                    let mut t = mk(label.clone(), a.clone(), b.clone(), common, &mut rng);
+                    t.a_lite = true;
+                    // blocks to fetch exist only in the "payments" chains; their completion order is the
+                    // subject of the full-node scenarios, here they complete in request order
+                    t.policy = if v == 0 || label.contains("payments") { Policy::Fifo } else { Policy::Random };
+                    if v == 0 {
+                        t.batch = 1;
+                        t.verifiers = 1;
+                    }
+                    scenarios.push(t);
+                }
+            }
+            // two phases through the real handlers only: A syncs B's first k blocks, B grows, A asks again
+            for (k, bl) in [(4usize, 9usize), (12, 25), (20, 30), ((*gp as usize * 2).min(*n) - 4, *n)] {
+                if k < bl && bl <= *n {
+                    let mut t = mk(format!("lite A empty, B {} growing to {}", k, bl), Arc::new(vec![]), Arc::new(mainv[..bl].to_vec()), 0, &mut rng);
+                    t.a_lite = true;
+                    t.b_growth = bl - k;
+                    t.policy = Policy::Fifo;
+                    scenarios.push(t);
+                }
+            }
+        }
+        // full node, two phases as well
+        for (al, k, bl) in [(0usize, 5usize, 12usize), (3, 10, 21), (10, 11, 25)] {
+            if bl <= *n {
+                for seq in [true, false] {
+                    let mut t = mk(format!("A prefix {}, B {} growing to {}", al, k, bl), Arc::new(mainv[..al].to_vec()), Arc::new(mainv[..bl].to_vec()), al, &mut rng);
+                    t.b_growth = bl - k;
+                    t.policy = Policy::Fifo;
+                    if seq {
+                        t.batch = 1;
+                        t.verifiers = 1;
+                    }
+                    scenarios.push(t);
+                }
+            }
+        }
     }
 
     progress(&format!("part2: {} scenarios built", scenarios.len()));
@@ -1721,6 +2193,10 @@ async fn async_main(args: Args) {
                     duplicates: false,
                     policy: Policy::Enumerated,
                     seed: 1,
+                    b_history: Arc::new(vec![]),
+                    a_lite: false,
+                    b_growth: 0,
+                    versions: None,
                 };
                 let mut forced: Vec<usize> = vec![];
                 let mut runs = 0;
@@ -1873,6 +2349,24 @@ async fn async_main(args: Args) {
             n_converged += 1;
         }
         summary.count("p2_gp", &format!("{}", sc.gp));
+        summary.count(
+            "p2_family",
+            if sc.a_lite {
+                "lite node (ghost chain)"
+            } else if sc.versions.is_some() {
+                if sc.version_gate_closed() { "wallet-version gate closed" } else { "wallet versions set, gate open" }
+            } else if !sc.b_history.is_empty() {
+                "B reorganised before"
+            } else if sc.batch >= 20 {
+                "25 fetches in flight"
+            } else {
+                "base"
+            },
+        );
+        summary.count("p2_retry_events", &format!("fetch-previous {} / fetch-chain {}", out.retry_events.0.min(3), out.retry_events.1.min(3)));
+        if sc.a_lite {
+            summary.count("p2_lite_fetches", &format!("{}", out.requested.len().min(8)));
+        }
         summary.count("p2_mode", if sc.sequential() { "sequential" } else { "concurrent" });
         summary.count("p2_loading_completed", &format!("{}", sc.loading_completed));
         summary.count("p2_policy", &format!("{:?}", sc.policy));
